@@ -10,6 +10,7 @@ FUNCTIONS = [
     "safeds_stubgen.stubs_generator._stub_string_generator:StubsStringGenerator._add_to_imports",
     "safeds_stubgen.stubs_generator._generate_stubs:generate_stub_data",
     "safeds_stubgen.stubs_generator._generate_stubs:create_stub_files",
+    "safeds_stubgen.api_analyzer._get_api:_get_nearest_init_dirs",
 ]
 EXPLANATION = (
     "Decided: independence from SET ITERATION ORDER (= string-hash seed) and from MODULE PROCESSING ORDER (= file-system "
@@ -47,6 +48,9 @@ def plan(tier):
            desc="alias resolution independent of set order", stubs=["set -> PermSet", "mypy -> shim"], symbolic="permutation index + shape"),
         CH("inferred_types", "harness.c08", "inferred_types", [f"0:{n},1:{a}" for n in range(2) for a in range(5)], timeout=t,
            desc="inferred results independent of set order", stubs=["set -> PermSet", "mypy -> shim"], symbolic="permutation index + shape"),
+        CH("nearest_packages", "harness.c08", "nearest_packages", [f"0:{n}" for n in range(4)], timeout=t,
+           desc="choice of the analysed package directory independent of file-system enumeration order",
+           stubs=["root.glob -> a list in an arbitrary order"], symbolic="set of package directories + permutation index"),
         CH("module_order", "harness.c08", "module_order", [f"0:{c},1:{r}" for c in range(2) for r in range(3)], timeout=t,
            desc="output independent of module analysis order", stubs=["in-memory FS"], symbolic="shape selectors"),
     ]
